@@ -44,6 +44,12 @@ CHECKS = {
     "C13": ("exploration", "exhaustive cut enumeration + property-based testing (metamorphic relation)",
             "Generated frame streams are delivered under every single cut, every pair (<= 40 bytes; thorough: every <= 3 cuts for <= 64 bytes), generated multi-cuts and byte-by-byte, with generated scheduling between segments; delivery must equal the unsegmented delivery and the generated messages, without reset.",
             "frames come from the library's encoder (round trip is C03); " + TRUST),
+    "C14": ("fault_enumeration", "property-based fault injection (Hypothesis-generated outage / silence histories, reference model + independent poll timeline)",
+            "Generated histories on an initialised client: link losses with 0..20 refusals and connect latency, console state changes made while the link is down (or none), delayed refresh answers, AT4 group status frames at gaps around 300 s and silences up to 2000 s. On every re-established connection the AC status and zone/group status requests must be seen in the instant of the open before anything else; afterwards every getter equals the reference model of the console's current state and subscribers fire only for entities whose exposed attributes changed; the instants of AT4 group status polls must equal an independent timeline (300 s after the last group status / poll while connected).",
+            "exact coincidences of a poll deadline with another event are discarded; " + TRUST),
+    "C15": ("fault_enumeration", "property-based fault injection (Hypothesis: scenario x shutdown instant drawn from the scenario's own event instants)",
+            "Each generated scenario (connect refusals / latency, console delays or silence at handshake step k, link losses with back-off, pending sends) is dry-run to collect its event instants; shutdown() / AirTouchSocket.close() is then called at such an instant -1/16, +0 (both same-instant orders) or +1/16 s. After it returns: no connection attempt, connection or byte during 10 000 s on a network that would accept, every connection closed, no client task or timer left in the loop, send / commands on retained objects raise NotOpenError, model cleared; an optional init() against a different installation must succeed and expose only the new installation.",
+            "harness-owned timers are cancelled at the shutdown instant; reports about orphaned subscriber tasks are not judged; " + TRUST),
     "C16": ("exploration", "stateful property-based testing (Hypothesis rule-based state machine, reference model of the pending buffer)",
             "Generated sends with mixed lifetimes and clock advances (exact expiry instants included) on a socket whose link is down, closed or never opened, then a connection; overflow / not-open errors and the frames that appear on connection must match a list model of unexpired entries.",
             "now == accept + lifetime counts as expired; " + TRUST),
